@@ -109,7 +109,7 @@ type c14InCase struct {
 var mkTab = func() [4][]byte {
 	var t [4][]byte
 	for k := range t {
-		t[k] = make([]byte, 400)
+		t[k] = make([]byte, 70000)
 		for i := range t[k] {
 			t[k][i] = byte(k*85) + byte(i*7*k)
 		}
@@ -154,7 +154,7 @@ func checkC14In(c c14InCase) verdict {
 }
 
 var c14In = newPart("C14", "admission",
-	"enumeration over 576 usable representative suites (32 field subsets x 6 challenge formats x 3 password hashes; digits/hash rotate): every field alone at EVERY length 0..140 and nil, others valid, observed at OCRAInput.Validate + GenerateOCRA + ValidateOCRA (error kind); every pair of fields at lengths from the boundary set {0,1,7..11,19..21,31..33,63..65,127..129,140}^2 (quick) or the full 0..140 x 0..140 square (thorough) at OCRAInput.Validate, boundary pairs also through GenerateOCRA/ValidateOCRA; oracle: independent predicate written from the statement; every (suite, lengths) tuple is distinct",
+	"enumeration over 576 usable representative suites (32 field subsets x 6 challenge formats x 3 password hashes; digits/hash rotate): every field alone at EVERY length 0..140, nil, and 24 lengths far above the limits that alias admissible lengths modulo 2^8 / 2^16 (264, 276, 288, 320, 384, 65544, ...), others valid, observed at OCRAInput.Validate + GenerateOCRA + ValidateOCRA (error kind); every pair of fields at lengths from the boundary set {0,1,7..11,19..21,31..33,63..65,127..129,140}^2 (quick) or the full 0..140 x 0..140 square (thorough) at OCRAInput.Validate, boundary pairs also through GenerateOCRA/ValidateOCRA; oracle: independent predicate written from the statement; every (suite, lengths) tuple is distinct",
 	checkC14In)
 
 func repSuites() []ref.OCRACfg {
@@ -171,6 +171,10 @@ func repSuites() []ref.OCRACfg {
 	}
 	return out
 }
+
+// bigLens: lengths above the enumerated 0..140 range, chosen to alias admissible lengths under
+// 8-bit or 16-bit truncation (256+8, 256+20, 256+32, 256+64, 256+128, 65536+8, ...).
+var bigLens = []int{141, 200, 255, 256, 257, 263, 264, 265, 266, 276, 288, 320, 383, 384, 385, 512, 520, 1024, 65536, 65544, 65556, 65568, 65600, 65664}
 
 func validLens(c ref.OCRACfg) [5]int {
 	return [5]int{8, ref.QMin(c.QFormat) + 3, ref.PLen(c.PHash), 17, 8}
@@ -193,7 +197,11 @@ func TestC14_Admission(t *testing.T) {
 		base := validLens(cfg)
 		// single-field sweep, every length and nil, all three observation points
 		for f := 0; f < 5; f++ {
-			for l := -1; l <= 140; l++ {
+			for li := -1; li <= 140+len(bigLens); li++ {
+				l := li
+				if li > 140 { // far beyond every limit: lengths that alias admissible ones modulo 2^8 / 2^16
+					l = bigLens[li-141]
+				}
 				lens := base
 				lens[f] = l
 				c := c14InCase{Cfg: cfg, Lens: lens, Full: true, Fill: byte(i + l), Sweep: "single"}
